@@ -81,22 +81,75 @@ template <class BM> static void band_case(const char* cname, const RM& A, const 
   }
 }
 
-static void bandinv_case(const RM& A, int b) {   // BandMat::invBand on a positive definite matrix
+// BandMat::invBand(Z, pbw) of a positive definite band matrix against the dense inverse, for the default call and
+// every requested result band b .. b+3 (the result band may exceed dim-1: the extra cells lie outside the matrix)
+static void bandinv_case(const RM& A, int b, const char* fam = "") {
   const int d = A.r;
   BandMat Bm(d, b); Bm.set_zero();
   for (int i = 0; i < d; i++) for (int j = i; j < d && j <= i + b; j++) Bm(i + 1, j + 1) = A(i, j);
-  LMat R; inverse(toL(A), R);
-  for (int pbw : {0, d - 1}) {
+  LMat R; if (!inverse(toL(A), R)) { bad("inverse", "harness", "reference-inverse-failed", "family member not invertible: " + rstr(A)); return; }
+  const long double tol = 1e-11L * std::max<long double>(1, maxabs(R));
+  BandMat F = Bm;
+  try { F.cholDec(); } catch (const Exc& e) { bad("cholesky", "BandMat::cholDec", "pd-refused", std::string(e.what()) + " for " + rstr(A) + " band " + std::to_string(b)); return; }
+  const std::vector<double> F0(F.begin(), F.end());
+  for (int q = -1; q <= 3; q++) {          // q = -1: invBand(Z) without the second argument; else pbw = b + q
+    const int pbw = q < 0 ? 0 : b + q;
+    const int zb = std::max(pbw, b);
+    // the result object: empty, (q = 1) already sized for the request, (q = 2) sized for something else
     C("transitions");
     try {
-      BandMat F = Bm; F.cholDec(); BandMat Z; F.invBand(Z, pbw);
-      int zb = std::max(pbw, b);
-      if (Z.dim() != d || Z.bandWidth() != zb) { bad("inverse", "BandMat::invBand", "shape", "dim/band of the result wrong"); continue; }
-      const BandMat& ZC = Z; long double e = 0;
-      for (int i = 0; i < d; i++) for (int j = i; j < d && j <= i + zb; j++) e = std::max(e, fabsl(R(i, j) - ZC(i + 1, j + 1)));
-      if (!(e <= 1e-11)) bad("inverse", "BandMat::invBand", "band-of-inverse", "max diff " + str((double)e) + " for " + rstr(A) + " band " + std::to_string(b) + " pbw " + std::to_string(pbw));
+      BandMat Z; if (q == 1) Z.reset(d, zb); else if (q == 2) Z.reset(d + 1, b);
+      if (q < 0) F.invBand(Z); else F.invBand(Z, pbw);
+      std::string cls = std::string(q < 0 ? "default-band" : (q == 0 ? "same-band" : "wider-band")) + (b >= 2 ? "|band>=2" : "|band<=1") + fam;
+      O("BandMat:invBand:" + cls);
+      if (Z.dim() != d || Z.bandWidth() != zb) { bad("inverse", "BandMat::invBand", "shape|" + cls, "dim " + std::to_string(Z.dim()) + " band " + std::to_string(Z.bandWidth()) + " expected " + std::to_string(d) + " / " + std::to_string(zb)); continue; }
+      const BandMat& ZC = Z; long double e = 0; int wi = 0, wj = 0;
+      for (int i = 0; i < d; i++) for (int j = i; j < d && j <= i + zb; j++) { long double df = fabsl(R(i, j) - ZC(i + 1, j + 1)); if (!(df <= e)) { e = df; wi = i + 1; wj = j + 1; } }
+      if (!(e <= tol)) bad("inverse", "BandMat::invBand", "band-of-inverse|" + cls, "Z(" + std::to_string(wi) + "," + std::to_string(wj) + ") = " + str(ZC(wi, wj)) + " dense inverse " + str((double)R(wi - 1, wj - 1)) + " for " + rstr(A) + " band " + std::to_string(b) + " requested band " + (q < 0 ? std::string("(default)") : std::to_string(pbw)));
+      if (std::vector<double>(F.begin(), F.end()) != F0) { bad("inverse", "BandMat::invBand", "factor-changed", "invBand modified the factored matrix"); return; }
     } catch (const Exc& e) { bad("inverse", "BandMat::invBand", "unexpected-exception", e.what()); }
   }
+}
+
+// ---- alg.bandinv: the family of strictly diagonally dominant band matrices
+//   segment (d, b), d = 1..BI_DFULL, b = 0..d-1: every filling of the in-band off-diagonal cells over {-1,0,1}, diagonal 2b+1+(i mod 2)
+//   segment (d, b), d = BI_DFULL+1..BI_DMAX, b = 0..min(d-1, BI_BMAX): three structured fillings over {-2..2}, diagonal 4b+1+(i mod 2)
+//   two configurations, each a unit of its own so that a case index means the same in both tiers:
+//   alg.bandinv (quick and thorough): BI_DMAX 9, BI_CAP 10;  alg.bandinvx (thorough): BI_DMAX 10, BI_CAP 12
+static const int BI_DFULL = 5, BI_BMAX = 5;
+static int BI_CFG = 0;
+struct BiSeg { int d, b, cells; bool full; long long n, first; };
+static const std::vector<BiSeg>& bi_segs() {
+  static std::vector<BiSeg> SS[2];
+  std::vector<BiSeg>& S = SS[BI_CFG]; const int BI_DMAX = BI_CFG ? 10 : 9, BI_CAP = BI_CFG ? 12 : 10;
+  if (S.empty()) {
+    long long at = 0;
+    for (int d = BI_DMAX; d >= 1; d--) for (int b = std::min(d - 1, d <= BI_DFULL ? d - 1 : BI_BMAX); b >= 0; b--) {
+      BiSeg s; s.d = d; s.b = b; s.cells = 0; for (int k = 1; k <= b; k++) s.cells += d - k;
+      s.full = d <= BI_DFULL || s.cells <= BI_CAP; s.n = s.full ? ipow(3, s.cells) : 3; s.first = at; at += s.n; S.push_back(s);
+    }
+  }
+  return S;
+}
+static long long bandinv_total() { const BiSeg& l = bi_segs().back(); return l.first + l.n; }
+static const BiSeg& bi_find(long long idx) { const auto& S = bi_segs(); size_t k = 0; while (k + 1 < S.size() && S[k + 1].first <= idx) k++; return S[k]; }
+static RM bi_matrix(long long idx, int& b, bool& full) {
+  const BiSeg& s = bi_find(idx); long long k = idx - s.first; b = s.b; full = s.full;
+  RM A(s.d, s.d);
+  for (int i = 0; i < s.d; i++) A(i, i) = (s.full ? 2 * s.b : 4 * s.b) + 1 + (i % 2);
+  for (int i = 0; i < s.d; i++) for (int j = i + 1; j < s.d && j <= i + s.b; j++) {
+    double v;
+    if (s.full) { v = ALPHA3[k % 3]; k /= 3; }
+    else v = k == 0 ? 1.0 : (k == 1 ? (((i + j) & 1) ? -2.0 : 1.0) : (double)((3 * i + 5 * j) % 5 - 2));
+    A(i, j) = A(j, i) = v;
+  }
+  return A;
+}
+static std::string bandinv_fmt(long long idx) { int b; bool full; RM A = bi_matrix(idx, b, full); return "band " + std::to_string(b) + " " + rstr(A); }
+static void bandinv_unit_case(long long idx) {
+  int b; bool full; RM A = bi_matrix(idx, b, full); g_cls = "";
+  C("states"); C("evaluations");
+  bandinv_case(A, b, full ? "" : "|structured");
 }
 
 static void sym_case(int d, long long k) {
